@@ -121,7 +121,7 @@ theorem inv_exec (a : Api) (c : Call) (hi : Inv a.s) : Inv (a.exec c).1.s := by
   | adv d => exact { hi with }
   | expire d h0 =>
     simp only [Api.exec]
-    have := inv_step a.s (.expire d (List.range' h0 supplyLen)) hi
+    have := inv_step a.s (.expire (cutoffOf a.s d) (List.range' h0 supplyLen)) hi
     split <;> exact this
   | lockAll sid h0 =>
     simp only [Api.exec]
